@@ -117,6 +117,10 @@ def make_box(rng, kind, nv):
         lb = [(-1e-6 if j % 2 == 0 else -1e4) for j in range(nv)]
         ub = [(1e-6 if j % 2 == 0 else 1e4) for j in range(nv)]
         return lb, ub
+    if kind == 'intlb':
+        # integer lower bounds (an int list), fractional upper bounds on either side of zero
+        lb = [rng.choice([-4, -3, -2, 0, 1]) for _ in range(nv)]
+        return lb, [l + rng.choice([0.5, 1.5, 2.5]) for l in lb]
     if kind == 'intlist':
         return [-(j + 1) for j in range(nv)], [j + 2 for j in range(nv)]
     raise KeyError(kind)
